@@ -13,7 +13,7 @@ PIN = {}
 FUNCTIONS = [Cluster.is_idle, Buffer.is_empty, Scheduler.is_idle, Telescope.is_idle, Simulation.is_finished,
              Telescope.begin_observation, Telescope.finish_observation]
 META = {
-    'bounds': {'C19.cluster': '3 machines, every pool vector (5^3) by prelude, then 0..4 timesteps of the real kernel',
+    'bounds': {'C19.cluster': '3 machines, every pool vector (5^3) by prelude, then 0..4 timesteps of the real kernel, then an ingest provisioning stepped event by event',
                'C19.buffer': 'capacities and free space unbounded ints; plus capacities 10^3..10^18 holding 0..2 units (case-split)', 'C19.scheduler': 'queue length 0..2',
                'C19.telescope': '2 observations each waiting/running/finished through begin/finish_observation, demands unbounded >= 0'},
     'outside_bounds': ['more than 3 machines / 2 observations at unit level (SIMH covers trajectories)'],
@@ -38,6 +38,18 @@ def cluster_q_tag(p0, p1, p2, adv):
         if k >= adv:
             break
         env.run(env.now + 1)
+    # inside a timestep: an ingest pipeline is provisioned and the query is asked after every single event of that
+    # instant (machines are moved to the ingest pool first, the ingest tasks are registered by later events)
+    g = len(c.get_available_resources())
+    if g and c.check_ingest_capacity(g, 3):
+        env.process(c.provision_ingest_resources(g, Obs('late', 2)))
+        for _ in range(4 * g + 4):
+            if env.peek() != env.now:
+                break
+            env.step()
+            wit.reach('queried-between-events')
+            if c.is_idle() != cluster_truth(c):
+                return 'C19/cluster-is-idle-wrong/between-events/' + ('says-idle-while-busy' if c.is_idle() else 'says-busy-while-idle')
     return None
 
 
